@@ -41,7 +41,10 @@ ASSUMPTIONS = [
     'paths, scalars met inside an array on a dotted path, the listed deviations of C11: NaN keys, '
     'Python-== items inside compared arrays / documents, ...) the order of the real '
     'find(filter).sort(...) is used instead',
-    'TTL-free histories; positional $ paths unmodelled',
+    'TTL-free histories',
+    'these histories draw no positional $ paths (the positional operator is modelled '
+    'and judged under C02); a step the model '
+    'answers unmodelled for cuts the history there',
 ]
 
 known_labels = {e['id'] for e in common.load_known(ID) if e.get('status') == 'known'}
